@@ -456,6 +456,228 @@ pub fn iprange_tok(r: &mut StdRng, a: &IpAddr, b: &IpAddr) -> Option<Tok> {
 }
 
 // ---------------------------------------------------------------------------------------
+// regular expressions and wildcards (property C11)
+
+fn re_lit(c: u8) -> Value {
+    json!({"k": "lit", "c": c})
+}
+
+const RE_ALPHA: [u8; 10] = [b'a', b'b', b'A', b'"', b']', b'[', 10, 0xff, b'.', b'-'];
+
+pub fn gen_re(r: &mut StdRng, depth: usize) -> Value {
+    let atom = |r: &mut StdRng| -> Value {
+        match r.random_range(0..8) {
+            0..=3 => re_lit(RE_ALPHA[r.random_range(0..RE_ALPHA.len())]),
+            4 => json!({"k": "any"}),
+            5 | 6 => {
+                let n = r.random_range(1..4);
+                let mut rs = Vec::new();
+                for _ in 0..n {
+                    let lo = RE_ALPHA[r.random_range(0..RE_ALPHA.len())];
+                    let hi = if r.random_range(0..3) == 0 { lo.saturating_add(r.random_range(0..40)) } else { lo };
+                    rs.push(json!({"lo": lo, "hi": hi}));
+                }
+                json!({"k": "cls", "neg": r.random_range(0..3) == 0, "rs": rs})
+            }
+            _ => re_lit(b'a'),
+        }
+    };
+    if depth == 0 {
+        return atom(r);
+    }
+    match r.random_range(0..10) {
+        0 | 1 => {
+            let a = gen_re(r, depth - 1);
+            let b = gen_re(r, depth - 1);
+            let wrap = |x: Value| if x["k"] == "alt" { json!({"k": "grp", "a": x}) } else { x };
+            json!({"k": "cat", "a": wrap(a), "b": wrap(b)})
+        }
+        2 => json!({"k": "alt", "a": gen_re(r, depth - 1), "b": gen_re(r, depth - 1)}),
+        3 => json!({"k": "grp", "a": gen_re(r, depth - 1)}),
+        4 | 5 | 6 => {
+            let inner = gen_re(r, depth - 1);
+            let a = if ["lit", "any", "cls", "grp"].contains(&inner["k"].as_str().unwrap()) { inner } else { json!({"k": "grp", "a": inner}) };
+            let kind = ["star", "plus", "opt"][r.random_range(0..3)];
+            json!({"k": kind, "a": a})
+        }
+        7 => {
+            let a = gen_re(r, depth - 1);
+            let a = if a["k"] == "alt" { json!({"k": "grp", "a": a}) } else { a };
+            if r.random_range(0..2) == 0 {
+                json!({"k": "cat", "a": {"k": "bol"}, "b": a})
+            } else {
+                json!({"k": "cat", "a": a, "b": {"k": "eol"}})
+            }
+        }
+        _ => atom(r),
+    }
+}
+
+fn esc_x(b: u8, out: &mut Vec<u8>) {
+    out.extend_from_slice(format!("\\x{:02x}", b).as_bytes());
+}
+
+fn render_byte(b: u8, out: &mut Vec<u8>) {
+    const META: &[u8] = b"\\.+*?()|[]{}^$#&-~";
+    if !(32..=126).contains(&b) {
+        esc_x(b, out)
+    } else if META.contains(&b) {
+        out.push(b'\\');
+        out.push(b)
+    } else {
+        out.push(b)
+    }
+}
+
+fn render_cls_byte(b: u8, out: &mut Vec<u8>) {
+    const META: &[u8] = b"\\][^-&~";
+    if !(32..=126).contains(&b) {
+        esc_x(b, out)
+    } else if META.contains(&b) {
+        out.push(b'\\');
+        out.push(b)
+    } else {
+        out.push(b)
+    }
+}
+
+pub fn render_re(re: &Value, out: &mut Vec<u8>) {
+    match re["k"].as_str().unwrap() {
+        "empty" => {}
+        "lit" => render_byte(re["c"].as_u64().unwrap() as u8, out),
+        "any" => out.push(b'.'),
+        "cls" => {
+            out.push(b'[');
+            if re["neg"] == true {
+                out.push(b'^');
+            }
+            for rg in re["rs"].as_array().unwrap() {
+                let (lo, hi) = (rg["lo"].as_u64().unwrap() as u8, rg["hi"].as_u64().unwrap() as u8);
+                render_cls_byte(lo, out);
+                if lo != hi {
+                    out.push(b'-');
+                    render_cls_byte(hi, out);
+                }
+            }
+            out.push(b']');
+        }
+        "cat" => {
+            render_re(&re["a"], out);
+            render_re(&re["b"], out);
+        }
+        "alt" => {
+            render_re(&re["a"], out);
+            out.push(b'|');
+            render_re(&re["b"], out);
+        }
+        "grp" => {
+            out.push(b'(');
+            render_re(&re["a"], out);
+            out.push(b')');
+        }
+        "star" | "plus" | "opt" => {
+            render_re(&re["a"], out);
+            out.push(match re["k"].as_str().unwrap() {
+                "star" => b'*',
+                "plus" => b'+',
+                _ => b'?',
+            });
+        }
+        "bol" => out.push(b'^'),
+        _ => out.push(b'$'),
+    }
+}
+
+/// source of a quoted regex literal (after the opening quote, including the closing one)
+pub fn quote_regex(pat: &[u8]) -> Vec<u8> {
+    let mut out = Vec::new();
+    let mut incls = false;
+    let mut i = 0;
+    while i < pat.len() {
+        let c = pat[i];
+        if c == b'\\' && i + 1 < pat.len() {
+            out.push(c);
+            out.push(pat[i + 1]);
+            i += 2;
+            continue;
+        }
+        if c == b'"' && !incls {
+            out.extend_from_slice(b"\\\"");
+        } else {
+            if c == b'[' && !incls {
+                incls = true;
+            } else if c == b']' && incls {
+                incls = false;
+            }
+            out.push(c);
+        }
+        i += 1;
+    }
+    out.push(b'"');
+    out
+}
+
+pub fn regex_tok(r: &mut StdRng, re: Value, bad: &str) -> Tok {
+    let mut pat = Vec::new();
+    render_re(&re, &mut pat);
+    match bad {
+        "unclosed-group" => pat.insert(0, b'('),
+        "unclosed-class" => pat.extend_from_slice(b"[a"),
+        "dangling-star" => pat.insert(0, b'*'),
+        "trailing-backslash" => pat.push(b'\\'),
+        "bad-repeat" => pat.extend_from_slice(b"a{2,1}"),
+        _ => {}
+    }
+    let text = String::from_utf8(pat.clone()).unwrap();
+    if r.random_range(0..2) == 0 {
+        let body = quote_regex(&pat);
+        let txt = format!("\"{}", String::from_utf8(body.clone()).unwrap());
+        Tok::Regex { pat, form: "q".into(), bad: bad.into(), re, body, txt }
+    } else {
+        let txt = raw_text(r, text.as_bytes()).unwrap();
+        Tok::Regex { pat, form: "r".into(), bad: bad.into(), re, body: vec![], txt }
+    }
+}
+
+const WILD_ALPHA: [u8; 7] = [b'a', b'A', b'*', b'?', b'\\', b'b', b'*'];
+
+pub fn wild_tok(r: &mut StdRng, hint: Option<Vec<u8>>) -> Tok {
+    let mut v: Vec<u8> = match hint {
+        Some(h) if r.random_range(0..2) == 0 => {
+            // turn a value into a pattern that may match it: escape, then replace a slice by *
+            let mut p = Vec::new();
+            for c in h.iter().take(8) {
+                if *c == b'*' || *c == b'\\' {
+                    p.push(b'\\');
+                }
+                p.push(if r.random_range(0..4) == 0 { c.to_ascii_uppercase() } else { *c });
+            }
+            if !p.is_empty() && r.random_range(0..2) == 0 {
+                let i = r.random_range(0..p.len());
+                p.truncate(i);
+                p.push(b'*');
+            }
+            p
+        }
+        _ => {
+            let n = r.random_range(0..7);
+            (0..n).map(|_| WILD_ALPHA[r.random_range(0..WILD_ALPHA.len())]).collect()
+        }
+    };
+    if is_ipish(&v) {
+        v.push(b'_');
+    }
+    // spell the pattern bytes as a quoted or raw string literal
+    if r.random_range(0..3) == 0 {
+        if let Some(t) = raw_text(r, &v) {
+            return Tok::Wild { v, form: "r".into(), txt: t };
+        }
+    }
+    let t = quoted_text(r, &v);
+    Tok::Wild { v, form: "q".into(), txt: t }
+}
+
+// ---------------------------------------------------------------------------------------
 // values and contexts
 
 const KEYS: [&[u8]; 5] = [b"k", b"a", b"", b"zz", b"\xff"];
@@ -571,6 +793,7 @@ pub struct FilterGen<'a> {
     pub set_max: usize,
     pub nest_pct: u32,
     pub badname_pct: u32,
+    pub re_pct: u32,
 }
 
 fn lop(r: &mut StdRng) -> Tok {
@@ -882,6 +1105,26 @@ impl<'a> FilterGen<'a> {
                     out.push(self.ord());
                     let b = self.bytes();
                     out.push(bytes_tok(self.r, &b, true));
+                }
+                5 if self.re_pct > 0 && self.r.random_range(0..100) < self.re_pct => {
+                    match self.r.random_range(0..3) {
+                        0 => {
+                            out.push(Tok::Bop { v: "matches".into(), a: self.r.random_range(0..2) });
+                            let d = self.r.random_range(0..3);
+                            let re = gen_re(self.r, d);
+                            let bad = if self.r.random_range(0..12) == 0 {
+                                ["unclosed-group", "unclosed-class", "dangling-star", "trailing-backslash", "bad-repeat"][self.r.random_range(0..5)]
+                            } else {
+                                "none"
+                            };
+                            out.push(regex_tok(self.r, re, bad));
+                        }
+                        k => {
+                            out.push(Tok::Bop { v: if k == 1 { "wildcard".into() } else { "strict wildcard".into() }, a: 0 });
+                            let h = self.hint(&Ty::Bytes).and_then(|v| match v { Val::Bytes { v } => Some(v), _ => None });
+                            out.push(wild_tok(self.r, h));
+                        }
+                    }
                 }
                 5 | 6 => {
                     out.push(Tok::Bop {
